@@ -43,7 +43,7 @@ VARIABLES
   skipNext,
   \* @type: Int -> {number: Int, start: Int, len: Int, base: Int, rem: Int, prevHR: Int, compact: Int};
   expNext,
-  \* @type: Int -> {hr: Str, len: Str, diff: Str, one: Bool, diffIn: Int};
+  \* @type: Int -> {hr: Str, len: Str, diff: Str, one: Bool, diffIn: Int, up: Int, lo: Int};
   tagNext,
   \* @type: Set(Int);
   badReward,
@@ -96,12 +96,14 @@ SpecNext(i) == LET c == NextCases[i]
                    p == PrevOf(c)
                IN NextEpoch(p, c.uncles, c.ms, d)
 
-\* @type: (Int) => {hr: Str, len: Str, diff: Str, one: Bool, diffIn: Int};
+\* up / lo: distance of the raw hash-rate estimate from the upper bound prev * Tau / the lower bound prev \div Tau
+\* @type: (Int) => {hr: Str, len: Str, diff: Str, one: Bool, diffIn: Int, up: Int, lo: Int};
 SpecTags(i) ==
   LET c == NextCases[i]
       d == DifficultyOfCompact(c.compact)
       a == Adjustment(c.len, c.prevHR, d, c.uncles, c.ms)
-  IN [hr |-> a.hrCase, len |-> a.lenCase, diff |-> a.diffCase, one |-> a.q.n < a.q.d, diffIn |-> d]
+  IN [hr |-> a.hrCase, len |-> a.lenCase, diff |-> a.diffCase, one |-> a.q.n < a.q.d, diffIn |-> d,
+      up |-> a.hps - c.prevHR * Tau, lo |-> a.hps - (c.prevHR \div Tau)]
 
 \* @type: (Int) => Bool;
 RewardAgrees(i) ==
